@@ -20,6 +20,9 @@ fn do_case(case: Vec<i128>) {
                 2 => forms::run::<Tr, u32, Tr, N>(&case),
                 3 => forms::run::<u32, Tr, Tr, N>(&case),
                 4 => forms::run::<forms::Cn, forms::Cn, forms::Cn, N>(&case),
+                8 => forms::run::<forms::P3, forms::P3, forms::P3, N>(&case),
+                9 => forms::run::<forms::H2, u32, u32, N>(&case),
+                10 => forms::run::<u32, forms::H2, forms::P3, N>(&case),
                 6 => forms::run::<harness::track::Tz, harness::track::Tz, harness::track::Tz, N>(&case),
                 7 => forms::run::<Tr, Tr, u32, N>(&case),
                 _ => forms::run::<forms::Zs, forms::Zs, forms::Zs, N>(&case),
